@@ -49,6 +49,7 @@ type Gen struct {
 type GenOpts struct {
 	Safety   bool // emit bounds / make / panic obligations
 	NilCheck bool
+	Prop     string // property being checked: postconditions of callees in other packages that are tagged only for other properties are not assumed (smaller, more stable queries; dropping assumptions is always sound)
 }
 
 type retInfo struct {
@@ -777,6 +778,9 @@ func (tr *Trans) assumeTyped(v Val, st *State, rc Term) {
 			case *types.Interface:
 				// type-system fact: the dynamic type of an interface value implements the interface
 				for _, tn := range sortedKeys(tr.g.specs.TypeLits) {
+					if !strings.ContainsAny(tn, ".*") {
+						continue // basic types named in specs (typeis(v, "int64")) never implement a method-bearing interface; no fact needed
+					}
 					if ct := tr.g.ld.lookupType(tn); ct != nil && !types.Implements(ct, u) {
 						tr.e.assume(rc, not(eq(tr.dynType(x), intT(int64(tr.g.typeID(ct))))))
 					}
